@@ -83,8 +83,8 @@ LEAVES = [
     L("s.secondary", [["sys", []], ["secondary", []]], "leafref", ["s:$k1", "s:nosuch"], fam=["cross"]),
     L("s.guard", [["sys", []], ["guard", []]], "boolean", ["b:true", "b:false"], fam=["valid", "cross"]),
     L("s.tags", [["sys", []], ["tags", []]], "leaf-list:string", ["ll:s:t1", "ll:s:t1|s:t2"], kind="leaflist", fam=["valid", "pres"], bad=[["ll:s:t1|s:t2|s:t3", "maxelements"]]),
-    L("s.feat", [["sys", []], ["feat", []]], "presence", ["e:"], kind="presence", fam=["dflt"]),
-    L("s.feat.level", [["sys", []], ["feat", []], ["level", []]], "uint8", ["u:1", "u:2"], default="u:1", fam=["dflt"]),
+    L("s.feat", [["sys", []], ["feat", []]], "presence", ["e:"], kind="presence", fam=["dflt", "pres"]),
+    L("s.feat.level", [["sys", []], ["feat", []], ["level", []]], "uint8", ["u:1", "u:2"], default="u:1", fam=["dflt", "pres"]),
     L("s.svc", [["sys", []], ["svc", []]], "presence", ["e:"], kind="presence", fam=["valid", "pres", "cross"]),
     L("s.svc.id", [["sys", []], ["svc", []], ["id", []]], "uint32", ["u:1", "u:2"], fam=["valid", "pres", "cross"]),
     L("s.svc.note", [["sys", []], ["svc", []], ["note", []]], "string", S, fam=["valid"]),
@@ -129,6 +129,11 @@ LEAVES = [
     L("c.y2", [["ch", []], ["beta", []], ["y2", []]], "string", S, choice="ch.kind", case="b", fam=["choice2"]),
     L("c.be", [["ch", []], ["beta-extra", []]], "string", S, choice="ch.kind", case="b", fam=["choice"]),
     L("c.z", [["ch", []], ["alphax", []], ["z", []]], "string", S, fam=["choice"]),
+    # a case whose member is a list
+    L("cp1.name", [["ch", []], ["peer", [["name", "$m1"]]], ["name", []]], "string", ["key"], entry="cp1", key="m1", choice="ch.kind", case="c", fam=["choice2"]),
+    L("cp1.w", [["ch", []], ["peer", [["name", "$m1"]]], ["w", []]], "string", S, entry="cp1", choice="ch.kind", case="c", fam=["choice2"]),
+    L("cp2.name", [["ch", []], ["peer", [["name", "$m2"]]], ["name", []]], "string", ["key"], entry="cp2", key="m2", choice="ch.kind", case="c", fam=["choice2"]),
+    L("cp2.w", [["ch", []], ["peer", [["name", "$m2"]]], ["w", []]], "string", S, entry="cp2", choice="ch.kind", case="c", fam=["choice2"]),
 ]
 
 # state (config false) leaves, only used by the read / sync engines
@@ -172,7 +177,7 @@ def under(leaf, node, gamma):
 
 
 ENTRIES = {
-    "i1": [item("k1")], "i2": [item("k2")], "m1": [mitem("m1")], "m2": [mitem("m2")], "p1": [PAIR1], "p2": [PAIR2], "t1": [TRI1],
+    "i1": [item("k1")], "i2": [item("k2")], "m1": [mitem("m1")], "m2": [mitem("m2")], "cp1": [["ch", []], ["peer", [["name", "$m1"]]]], "cp2": [["ch", []], ["peer", [["name", "$m2"]]]], "p1": [PAIR1], "p2": [PAIR2], "t1": [TRI1],
 }
 
 def tla_str(s): return '"' + s.replace('\\', '\\\\').replace('"', '\\"') + '"'
